@@ -16,6 +16,8 @@ var engines = map[string]sim.Engine{
 			execsim.RunC13(env)
 		case "C12":
 			execsim.RunC12(env)
+		case "C05":
+			execsim.RunC05(env)
 		default:
 			panic("execsim: unknown property " + env.Prop)
 		}
